@@ -36,6 +36,9 @@ CHECKS = {
  "C20": dict(engine="mirsmt+kani", technique="SMT partial-order encoding generated from the MIR of WeakRecorder::* and RecoveryHandle::into_inner over a counter model of Arc/Weak; Kani harness for the failed-install path; native schedule replay",
     text="for every interleaving of 1-2 emitting threads with into_inner / handle drop: no call is inside the recorder when it is recovered or finalised, none enters afterwards, recorder state intact during calls, original recorder returned, dropped exactly once, live until recovered, no panic",
     note="std Arc/Weak trusted (modelled as strong counter); recorder methods as enter/use/exit", ref="§4 C20"),
+ "C06": dict(engine="mirsmt", technique="SMT partial-order encoding generated from the MIR of Registry::{get_or_create_*,get_*,delete_*} over sharded abstract maps with a lock-word model of RwLock (acquire/release race relation incl. release sequences); native schedule replay on real threads",
+    text="for every interleaving of 2-3 racing get-or-create / delete calls and for sequential get/delete/get-or-create histories from an arbitrary well-formed registry: one storage per (kind,key), created at most once, different keys/kinds never share, delete/get report existence, mutations only under the write lock, no data race on shard entries",
+    note="hashbrown trusted as a map for keys with coherent Eq/hash (the check verifies syntactically that the shard maps use KeyHasher); 2 shards; whole-map iteration (visit/retain/clear/handles) not covered", ref="§4 C06"),
 }
 NA = {}
 ids = [json.loads(l)["id"] for l in open(os.path.join(V, "properties.jsonl"))]
